@@ -18,7 +18,7 @@ ASSUMPTIONS = [
     "a parameter is 'settable by the caller' if two different accepted values produce different PDUs (DOPs of the generator are injective)",
     "required/free are judged on the top-level parameter list of the request/response (what required_parameters/free_parameters describe)",
 ]
-MUST_HIT = ["free-value-honoured-checked", "static-message", "dynamic-message", "prefix-checked", "prefix>=2", "omit-required", "omit-optional",
+MUST_HIT = ["prefix-other-request:pdu-differs", "table-key:static", "table-key:dynamic", "table-key:dynamic-key-only", "last-listed-not-last", "free-value-honoured-checked", "static-message", "dynamic-message", "prefix-checked", "prefix>=2", "omit-required", "omit-optional",
             "alt-free", "alt-nonfree", "object-static", "BYTE-SIZE", "default-value", "out-of-order", "pk:matchreq",
             "bitmask"]
 NT = {"bitmask", "condensed-mask", "BYTE-SIZE", "out-of-order", "default-value", "dct:paramlen", "struct", "sfield",
@@ -124,6 +124,30 @@ def eval_case(case, res: core.ShardResult | None = None) -> list:
             cls.add("prefix>=2")
         if pdu[:len(pre)] != pre:
             fails.append(_fail("const-prefix", f"coded_const_prefix()={pre.hex()} is not a prefix of the PDU {pdu.hex()}", case))
+        if not is_req and rq:
+            # the same response object asked about other requests (a response is shared by all requests of its
+            # services): every answer must be a prefix of the PDU encoded for *that* request
+            first = pre
+            for i in range(min(len(rq), 6)):
+                rq2 = rq[:i] + bytes([rq[i] ^ 0x5A]) + rq[i + 1:]
+                try:
+                    with mh.quiet_warnings():
+                        pdu2 = bytes(obj.encode(coded_request=rq2, **mh.to_odx_value(case["values"])))
+                except Exception:
+                    continue
+                pre2 = bytes(obj.coded_const_prefix(request_prefix=rq2))
+                cls.add("prefix-other-request")
+                if pdu2 != pdu:
+                    cls.add("prefix-other-request:pdu-differs")
+                if pdu2[:len(pre2)] != pre2:
+                    fails.append(_fail("const-prefix", f"after a query for request {rq.hex()}, coded_const_prefix(request_prefix="
+                                       f"{rq2.hex()})={pre2.hex()} is not a prefix of the PDU {pdu2.hex()} encoded for that request",
+                                       case, {"bucket": "const-prefix:other-request"}))
+                    break
+            again = bytes(obj.coded_const_prefix(request_prefix=rq))
+            if again != first:
+                fails.append(_fail("const-prefix", f"coded_const_prefix(request_prefix={rq.hex()}) changed from {first.hex()} "
+                                   f"to {again.hex()} after queries for other requests", case, {"bucket": "const-prefix:unstable"}))
     except OdxError as e:
         fails.append(_fail("const-prefix-raises", f"coded_const_prefix raised {type(e).__name__}: {e}", case))
     # (c) required parameters
@@ -210,6 +234,38 @@ def eval_case(case, res: core.ShardResult | None = None) -> list:
                 fails.append(_fail("nonfree-settable", f"{p['name']} ({p['pk']}) is not reported as free but supplying {other} changes the PDU", case))
         elif p["pk"] in ("const", "physconst", "reserved", "matchreq") and p["name"] in free:
             fails.append(_fail("constant-reported-free", f"{p['name']} ({p['pk']}) is reported as free", case))
+    # TABLE-KEY parameters: a statically selected row is a constant, a dynamically selected one is set by the caller
+    for p in case["msg"]["params"]:
+        if p["pk"] != "tablekey":
+            continue
+        rows = [r["name"] for r in p["table"]["rows"]]
+        base = full if full_ok else vals
+        cur = p.get("row") or base.get(p["name"]) or next((v[0] for k_, v in base.items() if isinstance(v, (list, tuple)) and len(v) == 2 and v[0] in rows), None)
+        others = [r for r in rows if r != cur]
+        used = any(q["pk"] == "tablestruct" and q["key"] == p["name"] for q in case["msg"]["params"])
+        if p.get("row") is not None:
+            cls.add("table-key:static")
+            if p["name"] in free:
+                fails.append(_fail("constant-reported-free", f"{p['name']} (TABLE-KEY with TABLE-ROW-REF) is reported as free", case))
+            if others:
+                try:
+                    p2 = enc(dict(base, **{p["name"]: others[0]}))
+                    if p2 != enc(base):
+                        fails.append(_fail("nonfree-settable", f"{p['name']} statically selects {p['row']} but supplying {others[0]} changes the PDU", case))
+                except Exception:
+                    pass
+        else:
+            cls.add("table-key:dynamic")
+            if p["name"] not in free:
+                fails.append(_fail("settable-not-free", f"{p['name']} (TABLE-KEY) is not reported as free although the caller selects the row", case))
+            if others and not used and cur is not None:
+                cls.add("table-key:dynamic-key-only")
+                try:
+                    p2 = enc(dict(base, **{p["name"]: others[0]}))
+                    if p2 == enc(dict(base, **{p["name"]: cur})):
+                        fails.append(_fail("free-without-effect", f"{p['name']}: rows {cur} and {others[0]} give the same PDU {p2.hex()}", case))
+                except Exception as e:
+                    fails.append(_fail("free-value-not-honoured", f"{p['name']}: selecting row {others[0]} raised {type(e).__name__}: {e}", case))
     if res is not None:
         res.note({"msg": case["msg"], "values": case["values"], "pdu": pdu.hex()}, bool(feats & NT), cls,
                  dig={"m": case["msg"], "v": case["values"], "r": rq})
